@@ -60,6 +60,8 @@ structure DiskEnt where
   kind : Kind
   /-- for a symbolic link: its other logical names (`getLogicalFileNames`: where it points) -/
   alts : List Path := []
+  /-- the content of a regular file (a hash of it); nothing in the event language changes it -/
+  hash : Nat := 0
   deriving DecidableEq, Repr
 
 /-- one entry of `fileParamMap` (with its key) -/
